@@ -31,7 +31,7 @@ def sh(cmd, cwd, timeout=3600, env=None):
 
 def main():
     wt, name, prop = sys.argv[1], sys.argv[2], sys.argv[3]
-    checks = sys.argv[4:] or [prop]
+    checks = [prop] + [c for c in sys.argv[4:] if c != prop]
     meta = {"name": name, "property": prop, "worktree": wt, "verified": {}, "checks": {}}
     rc, diff = sh("git diff -- graphtage", wt)
     if not diff.strip():
